@@ -2114,7 +2114,10 @@ def cases_c04(ctx, boost):
         out.append(np(c))
     # ---- names and icons around their cut (every character width, boundary scalars, special fragments; shared with C13):
     #      the scan for a character boundary ends in `unwrap_unchecked`
-    for c in cases_c13(ctx, boost):
+    import copy
+    cq = copy.copy(ctx)
+    cq.tier = "quick"           # the quick-tier family also in C04's thorough tier (C13's own thorough tier has the full one)
+    for c in cases_c13(cq, boost):
         out.append(np(c))
     # ---- every public type through cbor_deserialize::<T>: values and random mutations
     for cfg in ctx.cfgs(("000", "111")):
